@@ -86,6 +86,19 @@ def runQ (chk : Bool) (toks : List String) : M Unit := do
     | "eq" =>
       let x := mkQ chk (← need (pQ a)); let y := mkQ chk (← need (pQ b))
       emit (sB (Quantity.eq chk x y))
+    | "ne" =>
+      let x := mkQ chk (← need (pQ a)); let y := mkQ chk (← need (pQ b))
+      emit (sB (!(Quantity.eq chk x y)))
+    | "lt" | "le" | "gt" | "ge" =>
+      -- `<`, `<=`, `>`, `>=` are the default methods of `PartialOrd`: defined through `partial_cmp` (and panic when it does)
+      let x := mkQ chk (← need (pQ a)); let y := mkQ chk (← need (pQ b))
+      let o ← liftP (Quantity.partialCmp chk x y)
+      emit (sB (match op, o with
+        | "lt", some .lt => true
+        | "le", some .lt | "le", some .eq => true
+        | "gt", some .gt => true
+        | "ge", some .gt | "ge", some .eq => true
+        | _, _ => false))
     | "unew" =>
       let m ← need a.toInt?; let s ← need b.toInt?
       emit (sU (DUnit.new chk m s))
